@@ -9,7 +9,12 @@
 (*  "logged","logProcessed","logYields",                                                         *)
 (*  "tgt":[{"sink","mates":[{"nlines","recs":[{"id","mx","c0","sl","ql"}..]}..]}..],            *)
 (*  "rej":[ same, recs additionally {"seq","qual","tags":[[key,value]..]} ],                     *)
-(*  optional "scn": the TLC scenario (Demux.tla, Scenario) this run replays }                     *)
+(*  optional "scn": the TLC scenario (Demux.tla, Scenario) this run replays,                       *)
+(*  history of the run (informational; the sinks are always observed after the LAST run and must  *)
+(*  hold exactly this run's records): "prior" ("" | "testrun": the same library demultiplexed     *)
+(*  with cut-off "prior_k" into the same output prefix before | "other": another, longer library   *)
+(*  with foreign ids into the same prefix before), "lanes" (1|2 calls of demultiplex through the   *)
+(*  same handles, split at "lane_split"), "stale_dir" }                                            *)
 (* {"ev":"same","tid","grp","N","runs":[{"n","ids":[id of every mate-1 target record]}..]}        *)
 (*                                                                                              *)
 (* Everything the property needs is recomputed here from the raw fields: record -> input pair    *)
